@@ -413,7 +413,12 @@ def reifyValue (std : Stdlib) : Nat → FOpts → Ty → Val → Outcome GoVal
   | 0, _, _, _ => .fuel
   | n+1, fo, ty, v =>
     match ty with
-    | .iface => do let d ← reifyP v; .ok (ifaceOf d)
+    | .iface => do
+      let d ← reifyP v
+      -- the validators of an interface{} field apply to the value it receives (the repaired D50)
+      match runValidators std fo.validators (ifaceOf d) with
+      | some e => raiseValidation e
+      | none => .ok (ifaceOf d)
     | .ptr t => do
       -- pointerize: a pointer to the value of the base type (also for nil settings)
       let x ← reifyValue std n fo t v
